@@ -81,6 +81,11 @@ def make_problem(rng, n_basis=None, tiny=False):
         w[int(rng.integers(n_basis))] = -0.7    # unconstrained optimum outside the positive orthant
     scales = rng.uniform(0.2, 8, size=(n_train, 1))
     data = (w @ basis + 0.4 * rng.standard_normal((n_train, basis.shape[1]))) * scales
+    if n_train >= 2 and rng.integers(3) == 0:
+        # heterogeneous training RDMs: each with its own mixture (different shapes), so that the way the training RDMs
+        # are normalised before pooling (which depends on sigma_k for the whitened criteria) matters
+        data = np.array([rng.uniform(0, 2, size=n_basis) @ basis + 0.4 * rng.standard_normal(basis.shape[1])
+                         for _ in range(n_train)]) * scales
     if rng.integers(3) == 0:
         data = data + rng.uniform(0, 3, size=(n_train, 1))
     selk = 'all' if tiny else gen.pick(rng, ['all', 'subset', 'bootstrap', 'bootstrap'])
